@@ -155,7 +155,8 @@ def render_v3000(m: Mol, rng: random.Random, opts=None):
             props.append("RAD=0")
         if mass is not None:
             props.append(f"MASS={mass}")
-        elif o["zeros"] and rng.random() < 0.5 and sym not in ("D", "T"):
+        elif o["zeros"] and rng.random() < 0.5:
+            # also on an atom written D or T: an explicitly written default states nothing, the symbol keeps its mass
             props.append("MASS=0")
         if o["extras"]:
             for f in rng.sample(V3_ATOM_EXTRAS, rng.randint(0, 3)):
